@@ -58,6 +58,28 @@ class RecordingReal(float):
         return self
 
 
+class TextReal:
+    """A real-number class that is no number to Python at all: it keeps the written text
+    (the documentation asks of real_cls only that it can be passed a str).  Refuses what
+    float() refuses, so it cannot turn non-numbers into reals."""
+
+    def __init__(self, text):
+        float(text)
+        self.text = str(text)
+
+    def __float__(self):
+        return float(self.text)
+
+    def __eq__(self, other):
+        return isinstance(other, TextReal) and self.text == other.text
+
+    def __hash__(self):
+        return hash(("TextReal", self.text))
+
+    def __repr__(self):
+        return f"TextReal({self.text!r})"
+
+
 class RecordingQuantity:
     def __init__(self, value, units):
         self.value = value
@@ -92,7 +114,8 @@ DECODER = {"PVL": PVLDecoder, "ODL": ODLDecoder, "PDS3": PDSLabelDecoder,
            "ISIS": PVLDecoder, "ISISv": OmniDecoder, "default": OmniDecoder}
 PARSER = {"PVL": PVLParser, "ODL": ODLParser, "PDS3": ODLParser, "ISIS": PVLParser,
           "ISISv": OmniParser, "default": OmniParser}
-REAL = {"float": None, "Decimal": Decimal, "RecordingReal": RecordingReal}
+REAL = {"float": None, "Decimal": Decimal, "RecordingReal": RecordingReal,
+        "TextReal": TextReal}
 
 
 def load(d, cfg, text, substitutes=True):
@@ -166,6 +189,11 @@ def walk(v, cfg, d, kind, out, path="$"):
         if not isinstance(v.units, str):
             out["problems"].append(("units-type", f"{path}: {v.units!r}"))
         return ("q", walk(v.value, cfg, d, None, out, path + ".value"), str(v.units))
+    if isinstance(v, TextReal):
+        if realcls is not TextReal:
+            out["problems"].append(("real-class", f"{path}: TextReal unexpected"))
+        out["texts"].append(v.text)
+        return ("float", float(v.text).hex())
     if isinstance(v, tuple):
         # some other sequence type (not a quantity: those were handled above)
         return ("seq", tuple(walk(x, cfg, d, None, out, f"{path}[{i}]")
@@ -182,7 +210,10 @@ def walk(v, cfg, d, kind, out, path="$"):
         out["decimals"].append(v.as_tuple())
         return ("float", float(v).hex())
     if isinstance(v, float):
-        if realcls is RecordingReal:
+        if realcls is TextReal:
+            out["problems"].append(
+                ("real-class", f"{path}: float {v!r}, expected TextReal"))
+        elif realcls is RecordingReal:
             if type(v) is not RecordingReal:
                 out["problems"].append(
                     ("real-class", f"{path}: {type(v).__name__} {v!r}, expected "
@@ -242,7 +273,7 @@ def run_case(case):
     realcls = cfg["real"] if d != "PDS3" else "float"
     if not shared and count_reals(expected) != len(case["numerals"]):
         return None          # this wiring reads some numerals differently anyway
-    if realcls == "RecordingReal":
+    if realcls in ("RecordingReal", "TextReal"):
         if Counter(out["texts"]) != Counter(case["numerals"]):
             return (f"C18/{d}/real-text-altered",
                     f"real_cls received {sorted(out['texts'])}, the text has "
@@ -316,7 +347,7 @@ def cases(draw, d):
                    expected=("mod", doc["expected"][1] + (item,)))
     text = gt.seeded_layout(doc, d, draw(st.integers(0, 2 ** 32)), "light")
     cfg = dict(real=draw(st.sampled_from(["float", "Decimal", "RecordingReal",
-                                           "RecordingReal"])),
+                                           "RecordingReal", "TextReal"])),
                quantity=draw(st.booleans()), containers=draw(st.booleans()),
                via_loads=draw(st.booleans()),
                entry=draw(st.sampled_from(["str", "str", "bytes", "BytesIO",
@@ -435,7 +466,8 @@ def run_loose(case):
                 f"cfg={cfg}: {case['nq']} values with units were written, "
                 f"{count_kind(got, 'q')} quantities are in the result {got!r}; text={text!r}")
     realcls = cfg["real"] if d != "PDS3" else "float"
-    if realcls == "RecordingReal" and Counter(out["texts"]) != Counter(case["numerals"]):
+    if realcls in ("RecordingReal", "TextReal") and \
+            Counter(out["texts"]) != Counter(case["numerals"]):
         return (f"C18/{d}/real-text-altered",
                 f"real_cls received {sorted(out['texts'])}, the text has "
                 f"{sorted(case['numerals'])}")
@@ -445,7 +477,7 @@ def run_loose(case):
 def loose_cases(acc):
     for text, nq, numerals_ in SEQ_IN_SET:
         for d in ("PVL", "ISIS", "ISISv", "default"):
-            for real in ("float", "Decimal", "RecordingReal"):
+            for real in ("float", "Decimal", "RecordingReal", "TextReal"):
                 for quantity in (False, True):
                     cfg = dict(real=real, quantity=quantity, containers=quantity,
                                via_loads=(d == "default"), entry="str", wiring="shared")
